@@ -39,6 +39,10 @@ def main():
         req = json.loads(line)
         if req["op"] == "decode":
             ans = decode(bytes.fromhex(req["hex"]), req.get("plugins", True))
+        elif req["op"] == "decode_plain":
+            from pel.peltool import peltool
+            peltool.prettyPrint = lambda s, desiredSpace=34: s
+            ans = decode(bytes.fromhex(req["hex"]), req.get("plugins", True))
         elif req["op"] == "decode_fx":
             sys.path.insert(0, os.path.dirname(os.path.abspath(__file__)))
             import fixtures as fxm
